@@ -205,3 +205,9 @@ def check_C13(tier):
     from drivers import manager
 
     return manager.run(Check("C13", tier), tier)
+
+
+def check_C14(tier):
+    from drivers import budget
+
+    return budget.run(Check("C14", tier, level="fault_enumeration"), tier)
